@@ -48,7 +48,7 @@ def series_transformers():
     add("optpass_off", lambda: OptionalPassthrough(LogTransformer(), passthrough=False), inverse=True, positive=True)
     add("cosine", lambda: CosineTransformer())
     add("acf", lambda: AutoCorrelationTransformer(n_lags=4), same_index=False)
-    add("pacf", lambda: PartialAutoCorrelationTransformer(n_lags=4), same_index=False)
+    add("pacf", lambda: PartialAutoCorrelationTransformer(n_lags=3), same_index=False)
     add("hampel", lambda: HampelFilter(window_length=5), missing=True)
     for m in ("drift", "linear", "nearest", "mean", "median", "ffill", "bfill"):
         add("imputer_" + m, (lambda mm: lambda: Imputer(method=mm))(m), missing=True)
